@@ -5,6 +5,7 @@ import os
 import vlib
 from vlib import Infra
 
+DCWTRACE = "SPECIFICATION TSpec\nCONSTANTS\n  MaxZ = 24\nINVARIANTS TInv\nCHECK_DEADLOCK FALSE\n"
 SCANTRACE = "SPECIFICATION TSpec\nCONSTANTS\n  MaxZ = 24\n  MaxP = 17\nINVARIANTS TInv\nCHECK_DEADLOCK FALSE\n"
 
 MCSCAN = "SPECIFICATION Spec\nCONSTANTS\n  MaxZ = %d\n  MaxP = %d\nINVARIANTS RightSlabs NoRace EachOnce\nPROPERTIES Terminates\nCHECK_DEADLOCK FALSE\n"
@@ -28,6 +29,7 @@ def run(ctx):
         ctx.add_tlc_counts(e)
         ctx.stage("protocol-" + name, kind="E", states=e.distinct, generated=e.generated)
     scan_trace(ctx)
+    dcwin_trace(ctx)
 
 
 def scan_trace(ctx):
@@ -69,3 +71,46 @@ def scan_trace(ctx):
     ctx.counts["evaluations"] += stats["records"]
     ctx.counts["distinct_nontrivial"] += stats.get("nonempty", 0)
     ctx.stage("V-scan", kind="V", records=stats["records"], events=stats["events"], fewer_slabs_than_workers=stats.get("flat", 0))
+
+
+def dcwin_trace(ctx):
+    """V: hook traces of the real dual-contouring window (every buffer depth 4..12 and the default, 3..19 planes) are
+    behaviours of DcWindow; every edge the code triangulated lies in a row the specification triangulates in that pass."""
+    quick = ctx.tier == "quick"
+    rpath = os.path.join(ctx.dir, "records-dcwin.ndjson")
+    spath = os.path.join(ctx.dir, "stats-dcwin.json")
+    ctx.drv(["c12-dcwin", "out=" + rpath, "stats=" + spath, "rounds=%d" % (2 if quick else 30), "seed=%d" % ctx.seed])
+    stats = json.load(open(spath))
+    if stats.get("records", 0) == 0 or stats.get("nonempty", 0) == 0 or stats.get("tris", 0) == 0:
+        raise Infra("dcwin driver recorded %s" % stats)
+    j = ctx.tlc("V-dcwin", "pipeline/DcWindowTrace", DCWTRACE, data={"records.ndjson": rpath}, workers=16, timeout=1800)
+    if j.invariant:
+        ctx.violation("dcwin-trace:%s" % j.invariant,
+                      "a recorded hook trace of the dual-contouring window drives DcWindow into a state violating %s" % j.invariant,
+                      {"spec": "pipeline/DcWindowTrace.tla", "tlc_output_tail": open(j.stdout_path).read()[-3000:]})
+    else:
+        ctx.require_clean(j, "V-dcwin")
+        if j.distinct != stats["events"] + 2 * stats["records"] and not j.tagged("REJECT"):
+            raise Infra("dcwin trace validation examined %d states for %d events in %d records" % (
+                j.distinct, stats["events"], stats["records"]))
+    ctx.add_tlc_counts(j)
+    recs = None
+    for (_, rid, line, ev) in j.tagged("REJECT"):
+        if recs is None:
+            recs = {r["id"]: r for r in vlib.read_ndjson(rpath)}
+        rec = recs[rid]
+        ctx.violation("dcwin-trace:DualContouring:%s" % ev,
+                      "hook trace #%d (%s, lattice %s, %d planes, %d buffered) is not a behaviour of DcWindow at event %d (%s)" % (
+                          rid, rec["cfg"], rec["n"], rec["nz"], rec["bufrows"], line, ev),
+                      {"spec": "pipeline/DcWindowTrace.tla", "cfg": rec["cfg"], "n": rec["n"], "trace_prefix": rec["ev"][:line]})
+    for rec in vlib.read_ndjson(rpath):
+        if rec["panic"]:
+            ctx.violation("dcwin-panic:DualContouring", "DualContouring panicked: %s" % rec["panic"][:300], {"record": rec["id"]})
+        elif rec["ntri"] != rec["quads"]:
+            ctx.violation("dcwin-trace:DualContouring:quads", "%d edges were triangulated but the mesh has %d quads" % (
+                rec["ntri"], rec["quads"]), {"record": rec["id"], "cfg": rec["cfg"]})
+    ctx.counts["traces_validated_against_impl"] += stats["records"]
+    ctx.counts["evaluations"] += stats["records"]
+    ctx.counts["distinct_nontrivial"] += stats.get("nonempty", 0)
+    ctx.stage("V-dcwin", kind="V", records=stats["records"], events=stats["events"], window_moved=stats.get("nonempty", 0),
+              edges_triangulated=stats["tris"])
